@@ -71,6 +71,7 @@ def shards(tier, seed):
     for lo in range(0, 256, 16):
         items.append(('pairs', lo, lo + 16))
     items.append(('triples', tier))
+    items.append(('p8file',))
     return items
 
 
@@ -116,6 +117,44 @@ def run_shard(item):
                 check_string(bytes([a, b]), res)
         res.sample({'bytes': bytes([item[1], 0x8e])})
         return res
+    if item[0] == 'p8file':
+        # "the Unicode text stored in .p8 files": every byte (and the special pairs) written to a .p8 and read back
+        import io
+        from pico8.game.formatter.p8 import P8Formatter
+        from lib import carts
+        sp = special_bytes()
+        lines = []
+        for b in range(1, 256):
+            if b in (10, 13):
+                continue
+            lines.append(b'--' + bytes([b]) + b'|' + bytes([b, b]) + b'\n')
+        for a in sp:
+            for b in sp:
+                lines.append(b'--' + bytes([a, b]) + b'\n')
+        code = b''.join(lines)
+        res.evaluations += 1
+        res.nontriv(('p8file',))
+        case = {'kind': 'p8file'}
+        try:
+            g = carts.make_game({}, version=33, code_lines=[code])
+            buf = io.BytesIO()
+            P8Formatter.to_file(g, buf, filename='t.p8')
+            raw = buf.getvalue()
+            raw.decode('utf-8')
+            g2 = P8Formatter.from_file(io.BytesIO(raw), filename='t.p8')
+            back = b''.join(g2.lua.to_lines())
+        except Exception as e:
+            res.violation('C15|p8file|raise|%s' % type(e).__name__, 'writing/reading a .p8 holding every byte raised %r' % (e,), case)
+            return res
+        if back != code:
+            src_l = code.split(b'\n')
+            got_l = back.split(b'\n')
+            k = next((i for i in range(min(len(src_l), len(got_l))) if src_l[i] != got_l[i]), min(len(src_l), len(got_l)))
+            res.violation('C15|p8file|mismatch|byte=%#x' % (src_l[k][2] if k < len(src_l) and len(src_l[k]) > 2 else -1),
+                          '.p8 write/read changed line %d: %r -> %r' % (k, src_l[k] if k < len(src_l) else None,
+                                                                        got_l[k] if k < len(got_l) else None), case)
+        res.sample({'p8file_line': lines[143]})
+        return res
     if item[0] == 'triples':
         sp = special_bytes()
         res.count('special_bytes', len(sp))
@@ -132,7 +171,9 @@ def run_shard(item):
 
 def replay(case):
     res = ShardResult()
-    if case.get('kind') == 'string':
+    if case.get('kind') == 'p8file':
+        res.merge(run_shard(('p8file',)))
+    elif case.get('kind') == 'string':
         check_string(case['bytes'], res)
     else:
         r = run_shard(('table',))
